@@ -151,3 +151,14 @@ CONTRACTS[F + "unicode_to_uint8"] = dict(
            "while#1": dict(invariant=["ord_char >= 0", "len(result) >= _k_for1", "forall(0, len(result), lambda k: 0 <= result[k] and result[k] <= 255)"],
                            decreases="ord_char")},
 )
+
+
+# pair_length: token length of a merged pair; codes above max_char_code are looked up in the length table (C09 / C10: no KeyError
+# as long as every learned code of the pair has an entry - bpe_train adds the entry of a new code before that code can occur in a pair)
+CONTRACTS[F + "pair_length"] = dict(
+    params=dict(pair="(int,int)", pair_lengths="dict[int,int]", max_char_code="int"),
+    requires=["implies(pair[0] > max_char_code, pair[0] in pair_lengths)", "implies(pair[1] > max_char_code, pair[1] in pair_lengths)"],
+    returns="int",
+    ensures=["result == (1 if pair[0] <= max_char_code else pair_lengths[pair[0]]) + (1 if pair[1] <= max_char_code else pair_lengths[pair[1]])",
+             "unchanged(pair_lengths)"],
+)
